@@ -28,6 +28,8 @@ def main():
     ap.add_argument('--checks', default='')
     ap.add_argument('--seeds', default='')
     ap.add_argument('--skip-demo', action='store_true')
+    ap.add_argument('--keep-corpus', action='store_true',
+                    help='minimise and keep one killing spec per check as corpus/<check>-seeded-<id>.json')
     ap.add_argument('--skip-suite', action='store_true',
                     help='do not touch /repo at all (e.g. while a background sweep reads it)')
     a = ap.parse_args()
@@ -78,7 +80,8 @@ def main():
             r = sh('patch -p1 -d %s < %s' % (scratch, patch))
         assert r.returncode == 0, r.stdout + r.stderr
         for c in checks:
-            cmd = '%s/check %s --tier quick --no-evidence --no-minimise' % (HERE, c)
+            cmd = '%s/check %s --tier quick --no-evidence%s' % (
+                HERE, c, '' if a.keep_corpus else ' --no-minimise')
             if a.seeds:
                 cmd += ' --seeds %s' % a.seeds
             env = dict(os.environ, VERIF_REPO=scratch,
@@ -88,6 +91,16 @@ def main():
                     if l.strip().startswith('signature:')]
             result['checks'][c] = {'exit': r.returncode, 'signatures': sigs[:6],
                                    'tail': r.stdout.strip().splitlines()[-1:]}
+            rd = os.path.join(scratch, 'replays')
+            if a.keep_corpus and r.returncode == 1 and os.path.isdir(rd) and os.listdir(rd):
+                dst = os.path.join(HERE, 'corpus', '%s-seeded-%s.json'
+                                   % (c, os.path.basename(sd)))
+                if not os.path.exists(dst):
+                    smallest = min((os.path.join(rd, f) for f in os.listdir(rd)),
+                                   key=os.path.getsize)
+                    shutil.copy(smallest, dst)
+                    result['checks'][c]['corpus'] = os.path.basename(dst)
+                shutil.rmtree(rd, ignore_errors=True)
     finally:
         shutil.rmtree(scratch, ignore_errors=True)
     print(json.dumps(result, indent=1))
